@@ -34,5 +34,7 @@ def obligations(tier):
         obs.append(Ob("C10.ident_boundary", F, "ident_boundary", 100, part=str(k), what="a near-placeholder identifier is concrete code: matches exactly programs using that identifier"))
     for k in range(10):
         obs.append(Ob("C10.sub_sound", F, "sub_sound", 300, part=str(k), what="sub-matching that inherits an earlier match (match['__e__'].find_matches(inner)): one identifier per _name_ across outer and inner match"))
+    obs.append(Ob("C10.const_kinds", F, "const_kinds", 200, what="constants of every kind (complex, bytes, Ellipsis, int, float, bool, str, None; 12 x 12 menu, statement or call argument): a constant pattern matches exactly the constant of the same type and equal value"))
+    obs.append(Ob("C10.class_conflict", F, "class_conflict", 200, what="a _name_ placeholder used as class name and again as function / variable name (symbolic identifiers): matches exactly when both are the same identifier"))
     obs.append(Ob("C10.sound_reach", F, "sound_reach", 60, expect="refute", what="twin: `_a_ = _a_ + 1` matches for suitable leaves"))
     return obs
